@@ -62,7 +62,7 @@ TYPE_LIKE = ["gbkey", "GBKEY", "feature_class", "regulatory_class", "Regulatory_
 NOT_TYPE = ["type", "class", "gb_key", "gene", "note", "Regulator_lass", "typ_e", "gbke"]
 TYPE_POOL = TYPE_LIKE + NOT_TYPE
 SCOPE = {
-    "quick": {"core": 5, "wide": 4, "types": 4, "nmerge": 4000, "gbk": [(2, 32), (3, 64), (4, 64), (5, 32), (6, 4)], "gbk_ambig": [(3, 16), (4, 16), (5, 8)]},
+    "quick": {"core": 5, "wide": 4, "types": 4, "nmerge": 4000, "gbk": [(2, 32), (3, 64), (4, 48), (5, 24), (6, 4)], "gbk_ambig": [(3, 16), (4, 16), (5, 8)]},
     "thorough": {"core": 7, "wide": 5, "types": 5, "nmerge": 40000, "gbk": [(2, 100), (3, 300), (4, 600), (5, 500), (6, 160), (7, 24)],
                  "gbk_ambig": [(3, 32), (4, 32), (5, 32), (6, 16)]},
 }
